@@ -218,6 +218,13 @@ impl Core {
                 | MessageType::Response(ResponseSpecific::FindNode(_))
                 | MessageType::Request(_) => {}
             };
+        } else if matches!(
+            message.message_type,
+            MessageType::Response(ResponseSpecific::Ping(_))
+        ) {
+            // KrpcSocket only gives us expected responses, so this node answered one of our
+            // pings, refresh it in the routing table.
+            should_add_node = true;
         };
 
         if should_add_node {
